@@ -309,7 +309,7 @@ def event_of(packet):
         return [('EClReq', enc_addr(packet.bd_addr))]
     if t == 'HCI_Connection_Complete_Event':
         if int(packet.status) != 0:
-            raise Unsupported('classic connection complete with an error status')
+            return [('EClFail', int(packet.status), enc_addr(packet.bd_addr))]
         return [('EClConn', packet.connection_handle, enc_addr(packet.bd_addr))]
     if t in IGNORED_EVENTS:
         return []
@@ -514,8 +514,9 @@ class World:
             d.l2cap_channel_manager.register_fixed_channel(
                 FIXED_CID, lambda h, pdu, i=i: self.obs[i].append(('rx', h, list(bytes(pdu)))))
             d.on('connection', lambda c, i=i: self._on_conn(i, c))
+            # a.data is the (merged) list of AD structures the application reads
             d.on('advertisement', lambda a, i=i: self.obs[i].append(
-                ('adv', enc_addr(a.address), list(bytes(a.data_bytes)), bool(a.is_scan_response))))
+                ('adv', enc_addr(a.address), list(bytes(a.data)), bool(a.is_scan_response))))
 
     def _on_conn(self, i, c):
         self.conns[i].append(c)
@@ -683,7 +684,7 @@ async def run_ops(cfg, ops_source):
 def _addr_of(target):
     from bumble.hci import Address
     kind, i = target
-    if kind == 'pub':
+    if kind in ('pub', 'none'):          # 'none': a public address that no device of the scenario owns
         return Address(pub_str(i), Address.PUBLIC_DEVICE_ADDRESS)
     return Address(rnd_str(i))
 
@@ -923,6 +924,13 @@ def oracle(w):
     for kind, i, target, status, k in w.results:
         if kind not in ('connect', 'cl_connect'):
             continue
+        if target[0] == 'none':
+            # nobody owns the address: the attempt must not produce a connection
+            if status == 'ok':
+                bad.append(('connect-to-nobody', f'device {i}: connect to an address nobody owns returned a connection'))
+            elif kind == 'cl_connect' and status != 'error':
+                bad.append(('connect-never-completes', f'device {i}: BR/EDR connect to an address nobody owns is {status}'))
+            continue
         t = w.pub[target[1]] if target[0] == 'pub' else w.rnd[target[1]]
         asked[(i, t)] = asked.get((i, t), 0) + 1
         if status == 'ok':
@@ -1046,11 +1054,16 @@ def oracle(w):
                 continue
             _, addr, data, is_rsp = o
             j = own(addr)
-            ok = j is not None and j != i and any(data == e for e in expected.get((j, addr), {}).get(w.scan_mode.get(i), []))
+            # an advertisement announced on its own carries the advertising data; one announced with its scan
+            # response (only an active scanner may see those) carries both
+            want = expected.get((j, addr), {}).get(is_rsp, [])
+            ok = j is not None and j != i and any(data == e for e in want)
+            if is_rsp and not w.ever_active.get(i):
+                ok = False
             if not ok:
                 bad.append(('scan-data', f'device {i} ({"active" if w.scan_mode.get(i) else "passive"} scan) was given '
-                                         f'{bytes(data).hex()} for address {addr} (device {j}); expected one of '
-                                         f'{[bytes(e).hex() for e in expected.get((j, addr), {}).get(w.scan_mode.get(i), [])]}'))
+                                         f'{bytes(data).hex()}{" as a scan response" if is_rsp else ""} for address {addr} '
+                                         f'(device {j}); expected one of {[bytes(e).hex() for e in want]}'))
     seen = set()
     out = []
     for sig, text in bad:
@@ -1066,19 +1079,16 @@ def _self_pub(w, i, k):
 
 def annotate(w):
     """what the scenario configured (from its own op list): expected scan data per (device, address, mode)"""
-    exp = {}
+    exp = {}                 # (device, address) -> {is_scan_response: [acceptable payloads]}
     scan_mode = {}
-    ambiguous = set()
+    ever_active = {}
     for op in w.ops:
         if op[0] == 'adv':
             _, i, own_pub, data, srsp = op
             a = w.pub[i] if own_pub else w.rnd[i]
             e = exp.setdefault((i, a), {True: [], False: []})
             e[False].append(list(data))
-            # an active scanner is given the scan response merged with the data; when its controller makes
-            # extended reports the advertisement is also announced on its own first
             e[True].append(list(data) + list(srsp))
-            e[True].append(list(data))
         elif op[0] == 'ext':
             _, i, own_pub, data = op
             a = w.pub[i] if own_pub else w.rnd[i]
@@ -1086,17 +1096,11 @@ def annotate(w):
             e[False].append(list(data))
             e[True].append(list(data))
         elif op[0] == 'scan':
-            if op[1] in scan_mode and scan_mode[op[1]] != op[2]:
-                ambiguous.add(op[1])
             scan_mode[op[1]] = op[2]
-    for i in ambiguous:
-        # the device scanned in both modes during the scenario: accept either form
-        for e in exp.values():
-            both = e[True] + e[False]
-            e[True] = both
-            e[False] = both
+            ever_active[op[1]] = ever_active.get(op[1], False) or op[2]
     w.expected_adv = exp
     w.scan_mode = scan_mode
+    w.ever_active = ever_active
 
 
 # ----------------------------------------------------------------------------- model side
@@ -1154,8 +1158,8 @@ def model_expr(w):
     else:
         real = '[' + '; '.join(f'({w.pub[i]}, {pre[i][2]}, {"true" if w.cfg["ext"][i] else "false"})'
                               for i in range(n)) + ']'
-        hyp = (f'(cfg_ok {real}, run_ok guard_static (init {real}) (skipn {n} ls), '
-               f'run_ok guard_sym (init {real}) (skipn {n} ls))')
+        hyp = (f'(let sym := run_ok guard_sym (init {real}) (skipn {n} ls) in (cfg_ok {real}, '
+               f'(if sym then true else run_ok guard_static (init {real}) (skipn {n} ls)), sym))')
     return f"let ls := {labels} in let '(s, tr) := run (init {cfg}) ls in (tr, state_obs s, {hyp})"
 
 
@@ -1234,35 +1238,19 @@ def _impl_msg(m):
 
 
 # ----------------------------------------------------------------------------- corpus (witnesses, always first)
+CORPUS_DIR = os.path.join(os.path.dirname(os.path.dirname(os.path.dirname(os.path.abspath(__file__)))), 'corpus', 'C06')
+KNOWN_RACE_NAME = 'D06d-two-centrals'
+
+
 def corpus():
+    """corpus/C06/*.json: the witnesses of D06a-D06c and other minimised scenarios; D06d is run separately"""
     out = []
-    # D06a: connection made with own_address_type PUBLIC, then data towards the peer
-    out.append(('D06a-central-public', {'n': 2, 'ext': [False, False]}, [
-        ['adv', 1, False, data_for(1, 'adv'), data_for(1, 'srsp')], ['flush'],
-        ['connect', 0, ['rnd', 1], True], ['tick', 1], ['flush'],
-        ['send', 0, 0, [1, 0, 7, 7]], ['send', 1, 0, [2, 0, 8]], ['flush']]))
-    # D06a, other direction: the peripheral advertises with its public address
-    out.append(('D06a-peripheral-public', {'n': 3, 'ext': [False, False, False]}, [
-        ['adv', 1, True, data_for(1, 'adv'), data_for(1, 'srsp')], ['flush'],
-        ['connect', 0, ['pub', 1], False], ['tick', 1], ['flush'],
-        ['send', 1, 0, [1, 0, 9]], ['send', 0, 0, [2, 0]], ['flush']]))
-    # D06b: active and passive scanners next to each other
-    out.append(('D06b-scan', {'n': 3, 'ext': [False, False, True]}, [
-        ['scan', 0, True], ['scan', 2, False],
-        ['adv', 1, False, data_for(1, 'adv'), data_for(1, 'srsp')], ['flush'], ['tick', 1], ['flush']]))
-    # D06c: a device that advertises while its own connect() is pending
-    out.append(('D06c-central-and-peripheral', {'n': 3, 'ext': [False, False, False]}, [
-        ['adv', 0, False, data_for(0, 'adv'), data_for(0, 'srsp')], ['flush'],
-        ['connect', 0, ['rnd', 1], False],
-        ['connect', 2, ['rnd', 0], False], ['tick', 0], ['flush'],
-        ['adv', 1, False, data_for(1, 'adv'), data_for(1, 'srsp')], ['flush'], ['tick', 1], ['flush'],
-        ['send', 0, 0, [1, 0]], ['send', 0, 1, [2, 0]], ['flush']]))
+    for f in sorted(os.listdir(CORPUS_DIR)):
+        if f.endswith('.json'):
+            with open(os.path.join(CORPUS_DIR, f)) as fh:
+                o = json.load(fh)
+            out.append((o['name'], o['cfg'], o['ops']))
     return out
-
-
-KNOWN_RACE = ('D06d-two-centrals', {'n': 3, 'ext': [False, False, False]}, [
-    ['connect', 0, ['rnd', 2], False], ['connect', 1, ['rnd', 2], False],
-    ['adv', 2, False, data_for(2, 'adv'), data_for(2, 'srsp')], ['flush']])
 
 
 # ----------------------------------------------------------------------------- run
@@ -1306,7 +1294,7 @@ def run_case(ctx, name, cfg, source, pending_exprs, sample=False):
 def evaluate_models(ctx, pending):
     pending = [p for p in pending if not p[1].rec.unsupported]
     exprs = [model_expr(w) for (_, w, _) in pending]
-    results = ctx.coq_eval(['Model.Link'], exprs, shard=40)
+    results = ctx.coq_eval(['Model.Link'], exprs, shard=8)
     for (name, w, rep), mres in zip(pending, results):
         d = compare(w, mres)
         hyp = getattr(w, 'hyp', None)
@@ -1331,24 +1319,34 @@ def run(ctx):
     ctx.assumptions += [
         'asyncio runs one callback atomically; LocalLink deliveries are call_soon callbacks (the model delivers one message per step)',
         'timers never fire by themselves (frozen clock); advertising events are explicit tick steps',
-        'addresses of different controllers are distinct; a controller does not change its addresses after power-on',
+        'addresses of different controllers are distinct; a controller does not change its addresses after power-on '
+        '(cfg_ok, guard_static: evaluated on every recorded run, see input_distribution hypotheses.*)',
+        'table symmetry is proved for schedules satisfying guard_sym: every ConnectInd is accepted by its addressee without '
+        'overwriting a connection, LE connections between two controllers are made and torn down one at a time '
+        '(the random scenarios are generated inside it; D06d is the witness outside it)',
+        'PDUs are sent on established connections (both ends hold it); LocalLink routes at send time by looking into the '
+        "receiver's table, so a PDU sent while the ConnectInd is still delayed is dropped; LocalLink's own call_soon order "
+        'cannot produce that',
     ]
     ctx.trusted += ['Model/Link.v is a hand-written reading of link.py / controller.py, tied to the code by differential '
                     'execution of recorded label traces only; Device.connect_le / connect_classic glue is exercised, not modelled']
     rng = ctx.rng
     pending = []
     for name, cfg, ops in corpus():
-        run_case(ctx, name, cfg, replay_source(ops), pending, sample=True)
-    # the known finding D06d is checked to still reproduce
-    name, cfg, ops = KNOWN_RACE
-    w, failure = execute(cfg, replay_source(ops))
-    if w is not None:
-        annotate(w)
-        for sig, text in oracle(w):
-            if sig == 'asymmetric':
-                ctx.violation('D06d:two-centrals-one-advertiser', f'{name}: {text}', {'cfg': cfg, 'ops': ops})
-        pending.append((name, w, {'cfg': cfg, 'ops': ops}))
-    total = ctx.n(70, 1500)
+        if name != KNOWN_RACE_NAME:
+            run_case(ctx, name, cfg, replay_source(ops), pending, sample=True)
+            continue
+        # the known finding D06d is checked to still reproduce (its model run is compared like any other)
+        w, failure = execute(cfg, replay_source(ops))
+        if w is not None:
+            annotate(w)
+            for sig, text in oracle(w):
+                if sig == 'asymmetric':
+                    ctx.violation('D06d:two-centrals-one-advertiser', f'{name}: {text}', {'cfg': cfg, 'ops': ops})
+                else:
+                    ctx.violation(sig + ':' + name, f'{name}: {text}', {'cfg': cfg, 'ops': ops})
+            pending.append((name, w, {'cfg': cfg, 'ops': ops}))
+    total = ctx.n(60, 2500)
     for s in range(total):
         cfg = gen_config(rng)
         mode = 'delayed' if s % 2 else 'natural'
@@ -1356,7 +1354,9 @@ def run(ctx):
         g = Generator(rng.fork(f'scenario{s}'), length, mode)
         run_case(ctx, f'{mode}{s}', cfg, g, pending, sample=(s < 2))
         ctx.count('mode.' + mode)
+    ctx.log(f'{len(pending)} scenarios run on the implementation; evaluating the model')
     evaluate_models(ctx, pending)
+    ctx.log('model evaluated')
 
 
 def search(ctx):
